@@ -1,14 +1,161 @@
 """Special engines used by bin/check next to the generic correspondence pipeline."""
+import os, subprocess, json, re, hashlib, time, shutil, tempfile
+
+VERIF = os.path.dirname(os.path.dirname(os.path.abspath(__file__)))
+LEAN = os.path.join(VERIF, "lean")
+BUILD = os.path.join(VERIF, "build")
+GOENV = dict(os.environ, GOFLAGS="-mod=mod", GOPROXY="off", GOSUMDB="off", GOTOOLCHAIN="local",
+             GOCACHE=os.environ.get("GOCACHE", os.path.join(BUILD, "gocache")))
+TRANSLATOR_PROPS = {"C01", "C02", "C16", "C10", "C08"}
+NCPU = os.cpu_count() or 4
+
+
+def sh(cmd, cwd=None, env=None, timeout=None):
+    p = subprocess.run(cmd, cwd=cwd, env=env, timeout=timeout, stdout=subprocess.PIPE, stderr=subprocess.STDOUT, text=True)
+    return p.returncode, p.stdout
 
 
 def run_translator(prop, cfg):
-    """Regenerate Gen/*.lean for properties that use translator output. Returns an error text or ''."""
+    """Regenerate Gen/*.lean from /repo's current source. Returns an error text or ''. (Called under the lake lock.)"""
+    if prop not in TRANSLATOR_PROPS:
+        return ""
+    src = os.path.join(VERIF, "translator")
+    exe = os.path.join(BUILD, "translator")
+    if os.path.exists("/repo/go.sum"):
+        pass
+    rc, out = sh(["go", "build", "-o", exe, "."], cwd=src, env=GOENV, timeout=600)
+    if rc != 0:
+        return "translator does not build:\n" + out[-2000:]
+    rc, out = sh([exe, "/repo", os.path.join(LEAN, "GoguVerif", "Gen"), os.path.join(BUILD, "facts.json")], env=GOENV,
+                 timeout=600)
+    if rc != 0:
+        return "translator failed on /repo:\n" + out[-2000:]
     return ""
 
 
+def write_replay(prop, kind, body):
+    d = os.path.join(VERIF, "replays"); os.makedirs(d, exist_ok=True)
+    h = hashlib.sha1(body.encode()).hexdigest()[:10]
+    path = os.path.join(d, f"{prop}-{kind}-{h}.trace")
+    open(path, "w").write(body)
+    return path
+
+
+# ------------------------------------------------------------------------------------------- C01
+
+RACE_BIN = os.path.join(BUILD, "harness_race.test")
+
+
+def build_race_harness():
+    rc, out = sh(["go1.26.8", "test", "-c", "-race", "-tags", "verif", "-o", RACE_BIN, "."],
+                 cwd=os.path.join(VERIF, "harness"), env=GOENV, timeout=1200)
+    return rc == 0, out
+
+
+STRESS_TYPES = ["heap.Heap", "bstree.BsTree", "trie.Trie", "queue.Queue", "queue.LQueue", "stack.Stack", "stack.LStack",
+                "cache.Cache"]
+
+
+def stress_one(args, timeout):
+    env = dict(os.environ, GORACE="halt_on_error=1 exitcode=66", GOMEMLIMIT="4GiB")
+    cmd = [RACE_BIN, "-test.run", "^TestHarness$", "-test.timeout", "0", "stress"] + args
+    try:
+        p = subprocess.run(cmd, env=env, stdout=subprocess.PIPE, stderr=subprocess.PIPE, text=True, timeout=timeout)
+        return p.returncode, p.stdout, p.stderr
+    except subprocess.TimeoutExpired as e:
+        return -9, (e.stdout or b"").decode() if isinstance(e.stdout, bytes) else (e.stdout or ""), "timeout"
+
+
+def c01_engine(prop, cfg, tier, seed):
+    from concurrent.futures import ThreadPoolExecutor
+    res = dict(violations=[], notes=[], evaluations=0, distinct_nontrivial=0, samples=[], detail={})
+    ok, out = build_race_harness()
+    if not ok:
+        res["violations"].append((write_replay(prop, "unproved", "# C01: the -race stress harness does not build against /repo\n# " +
+                                               out[-2000:].replace("\n", "\n# ") + "\n"), " no-failing-input-found"))
+        return res
+    def one(t):
+        return (t,) + stress_one(["-tier", tier, "-seed", str(seed), "-only", t], 3000 if tier == "thorough" else 900)
+    distinct = set()
+    registered = {}
+    with ThreadPoolExecutor(max_workers=len(STRESS_TYPES)) as ex:
+        results = list(ex.map(one, STRESS_TYPES))
+    for t, rc, so, se in results:
+        scen = [l for l in so.splitlines() if l.startswith("SCEN ")]
+        res["evaluations"] += len(scen)
+        for l in scen:
+            f = l.split()
+            distinct.add((f[2], f[3], f[4]))
+        for l in so.splitlines():
+            if l.startswith("METHODS "):
+                f = l.split()
+                registered[f[1]] = f[2].split(",")
+        if scen and len(res["samples"]) < 8:
+            res["samples"].append(scen[len(scen) // 2])
+        fails = [l for l in so.splitlines() if l.startswith("FAIL ")]
+        if rc == 66 or "DATA RACE" in se:
+            last = scen[-1] if scen else "(no scenario printed)"
+            report = se[se.find("WARNING: DATA RACE"):][:6000]
+            body = f"# property C01: data race reported by the Go race detector\n# scenario: {last}\n" + \
+                   f"STRESS {last}\n# " + report.replace("\n", "\n# ") + "\n"
+            res["violations"].append((write_replay(prop, "race", body), ""))
+        elif fails:
+            for fl in fails[:2]:
+                n = fl.split()[1]
+                sc = [l for l in scen if l.split()[1] == n]
+                body = f"# property C01: {fl}\nSTRESS {sc[0] if sc else ''}\n"
+                res["violations"].append((write_replay(prop, "stress", body), ""))
+        elif rc != 0:
+            last = scen[-1] if scen else "(no scenario printed)"
+            body = f"# property C01: stress process for {t} died (exit {rc}) during/after scenario\nSTRESS {last}\n# " + \
+                   se[-4000:].replace("\n", "\n# ") + "\n"
+            res["violations"].append((write_replay(prop, "crash", body), ""))
+    res["distinct_nontrivial"] = len(distinct)
+    # every exported method of the table must be registered in the stress harness
+    try:
+        facts = json.load(open(os.path.join(BUILD, "facts.json")))
+        missing = []
+        for m in facts["lockTable"]:
+            reg = registered.get(m["type"])
+            if reg is not None and m["method"] not in reg and m["inst"] == 0:
+                missing.append(m["type"] + "." + m["method"])
+        if missing:
+            res["notes"].append("methods in the lock table without a stress registration (decided by the table theorem only): " +
+                                ", ".join(sorted(set(missing))))
+        res["detail"]["lock_table_methods"] = len([m for m in facts["lockTable"] if m["inst"] == 0])
+    except Exception as e:
+        res["notes"].append(f"facts.json not readable: {e}")
+    res["detail"]["stress_scenarios"] = res["evaluations"]
+    return res
+
+
+def c01_replay(path):
+    ok, out = build_race_harness()
+    if not ok:
+        print(out); return 2
+    bad = False
+    for line in open(path):
+        if line.startswith("STRESS SCEN"):
+            f = line.split()
+            t, methods, init = f[3], f[4], f[5].split("=")[1]
+            rc, so, se = stress_one(["-only", t, "-methods", methods, "-init", init, "-reps", "300"], 900)
+            if rc != 0:
+                bad = True
+                print(se[:3000]); print("\n".join(l for l in so.splitlines() if l.startswith("FAIL"))[:2000])
+    if bad:
+        print(f"VIOLATION property=C01 replay={path}")
+    return 1 if bad else 0
+
+
+# --------------------------------------------------------------------------------------- dispatch
+
 def run_engines(prop, cfg, tier, seed):
+    if prop == "C01":
+        return c01_engine(prop, cfg, tier, seed)
     return None
 
 
 def replay(prop, cfg, path):
+    if prop == "C01":
+        return c01_replay(path)
     return 0
